@@ -37,6 +37,16 @@ theorem C10_body_flat (n len i : Nat) :
     runViews true SeqBody.sliceFromChunksMut ⟨n, len, i⟩ = .views [⟨0, len * n, true⟩] :=
   sliceFromChunks_body n len i
 
+/-- **C11** by-reference `flatten` / `unflatten` on the interpreted bodies: the regrouped reference is the receiver reference
+    retyped — same address, the same `N·M` (resp. `NM`) elements, shared for `&`, writable for `&mut` — so reads and writes
+    through it are reads and writes of the original storage -/
+theorem C11_body_regroup_views (n m nm i : Nat) :
+    runViews false SeqBody.flattenRef ⟨n, m, i⟩ = .views [⟨0, n * m, false⟩] ∧
+    runViews true SeqBody.flattenMut ⟨n, m, i⟩ = .views [⟨0, n * m, true⟩] ∧
+    runViews false SeqBody.unflattenRef ⟨n, nm, i⟩ = .views [⟨0, nm, false⟩] ∧
+    runViews true SeqBody.unflattenMut ⟨n, nm, i⟩ = .views [⟨0, nm, true⟩] :=
+  ⟨(regroupRef_body n m i).1, (regroupRef_body n m i).2.1, (regroupRef_body n nm i).2.2.1, (regroupRef_body n nm i).2.2.2⟩
+
 /-- **C02** `as_slice` / `as_mut_slice` — what every other borrowed view (`Deref`, `Borrow`, `AsRef`, `&`-iteration, indexing)
     delegates to — on the interpreted bodies: the view starts at the array's address, has exactly `N` elements, is made from
     the receiver reference itself and is writable only for `as_mut_slice` -/
@@ -81,8 +91,12 @@ example : runViews true [.ptrSelf 0 false, .viewAt 0 0 (.lit 0) .n true, .retVie
 -- a view one element longer than the array
 example : runViews false [.ptrSelf 0 false, .viewAt 0 0 (.lit 0) (.add .n (.lit 1)) false, .retViews [0]] ⟨4, 0, 0⟩ = .ub := by decide
 
+-- a `&mut` regrouped view made from `self.as_ptr()` (seed C11-11): not writable
+example : runViews true [.ptrArg 0 false .k, .viewAt 0 0 (.lit 0) .k true, .retViews [0]] ⟨3, 12, 0⟩ = .ub := by decide
+
 end GA.Props.BodyViews
 
+#print axioms GA.Props.BodyViews.C11_body_regroup_views
 #print axioms GA.Props.BodyViews.C02_body_as_slice
 #print axioms GA.Props.BodyViews.C10_body_chunks_partition
 #print axioms GA.Props.BodyViews.C10_body_chunks_zero
